@@ -25,7 +25,7 @@ func (w *verifWorld) grantOf(c *verifContainer) *grant {
 // conjunction, i.e. one solver query, per label).
 func (w *verifWorld) checkC01() {
 	p := w.p
-	disjoint, notInOther, notInPool, withinAllowed, reservedClassOnly, neverMixed := true, true, true, true, true, true
+	disjoint, notInOther, notInPool, withinAllowed, reservedClassOnly, neverMixed, notInGrantless := true, true, true, true, true, true, true
 	for i, c := range w.ctrs {
 		g := w.grantOf(c)
 		if g == nil {
@@ -42,6 +42,10 @@ func (w *verifWorld) checkC01() {
 				}
 				// a container still holding a grant must not be pinned to somebody else's exclusive CPUs
 				notInOther = verifAnd(notInOther, excl.Intersection(o.pinned()).IsEmpty())
+			} else if !o.gone {
+				// a live container that lost its grant (refused update) keeps the
+				// pinning the runtime has
+				notInGrantless = verifAnd(notInGrantless, excl.Intersection(o.pinned()).IsEmpty())
 			}
 		}
 		for _, pool := range p.pools {
@@ -56,6 +60,7 @@ func (w *verifWorld) checkC01() {
 	}
 	verifAssert("C01.exclusive-disjoint", disjoint)
 	verifAssert("C01.exclusive-not-in-other-cpuset", notInOther)
+	verifAssert("C01.exclusive-not-in-cpuset-of-container-left-without-grant", notInGrantless)
 	verifAssert("C01.exclusive-not-in-shared-pool", notInPool)
 	verifAssert("C01.pinned-within-allowed", withinAllowed)
 	verifAssert("C01.reserved-only-for-reserved-class", reservedClassOnly)
@@ -214,7 +219,7 @@ func verifHistory(check func(w *verifWorld), onAllocated func(w *verifWorld, c *
 	for k := 0; k < ops; k++ {
 		op := 0
 		if len(w.ctrs) > 0 && verifParam("releases", 1) != 0 {
-			op = verifChoice("op", 2)
+			op = verifChoice("op", 2+verifParam("updates", 0))
 		}
 		switch op {
 		case 0:
@@ -237,8 +242,26 @@ func verifHistory(check func(w *verifWorld), onAllocated func(w *verifWorld, c *
 				return
 			}
 			err := w.p.ReleaseResources(c)
+			c.gone = true
 			verifCover("released")
 			verifAssert("C09.release-succeeds", verifAnd(err == nil, w.grantOf(c) == nil))
+		case 2:
+			// the runtime updates the CPU request of a live container
+			c := w.ctrs[verifChoice("victim", len(w.ctrs))]
+			if c.gone {
+				return
+			}
+			m := verifNondetInt64("newmcpu")
+			verifAssume(verifAnd(m >= 0, m <= int64(verifParam("maxMilli", 3000))))
+			if c.pod.qos == v1.PodQOSBestEffort {
+				verifAssume(m == 0)
+			}
+			c.milliCPU = m
+			if err := w.p.UpdateResources(c); err != nil {
+				verifCover("update-refused")
+			} else {
+				verifCover("updated")
+			}
 		}
 		check(w)
 	}
